@@ -185,6 +185,8 @@ VERSIONS = {
     "T01:mut:defaultcond": ("T01", lambda t: _cfg(t, "B").defaults.__setitem__(0, ("y", "!C"))),
     "T01:mut:addopt": ("T01", lambda t: t.children.append(Cfg("ZNEW", B, "znew", defaults=[("y", None)]))),
     "T01:mut:rmopt": ("T01", lambda t: _rm(t, "E") or _cfg(t, "D").selects.clear() or _cfg(t, "Q").depends.__setitem__(0, "P")),
+    # the definition goes away but `Q depends on P || E` keeps referring to the name
+    "T01:mut:rmdef": ("T01", lambda t: _rm(t, "E") or _cfg(t, "D").selects.clear()),
     "T01:mut:promptless": ("T01", lambda t: setattr(_cfg(t, "G"), "prompt", None)),
     "T03:mut:default": ("T03", lambda t: _cfg(t, "N").defaults.__setitem__(1, ("20", None))),
     "T03:mut:range": ("T03", lambda t: _cfg(t, "N").ranges.__setitem__(1, ("LO", "15", None))),
